@@ -772,9 +772,18 @@ pub fn emit_driver(u: &DocUnit) -> String {
         s.push_str("    qv::tracing() = false;\n");
         for (o, p, _) in &st.expect {
             let cls = objs.iter().find(|x| x.name == *o).map(|x| class_of(x)).unwrap_or_default();
-            let g = getter_of(&cls, p).unwrap_or_else(|| p.clone());
             let var = if *o == root.name { "root".to_owned() } else { o.clone() };
-            s.push_str(&format!("    std::printf(\"= {o} {p} %s\\n\", qv::enc({var}->{g}()).c_str());\n"));
+            // `gadget.member` reads the member of the gadget-valued property
+            let access = match p.split_once('.') {
+                Some((g, mbr)) => {
+                    let g1 = getter_of(&cls, g).unwrap_or_else(|| g.to_owned());
+                    let gcls = meta().prop(&cls, g).map(|pi| pi.raw_type.trim().to_owned()).unwrap_or_default();
+                    let g2 = getter_of(&gcls, mbr).unwrap_or_else(|| mbr.to_owned());
+                    format!("{var}->{g1}().{g2}()")
+                }
+                None => format!("{var}->{}()", getter_of(&cls, p).unwrap_or_else(|| p.clone())),
+            };
+            s.push_str(&format!("    std::printf(\"= {o} {p} %s\\n\", qv::enc({access}).c_str());\n"));
         }
     }
     s.push_str(&format!("    std::printf(\"# {n} end\\n\"); std::fflush(stdout);\n"));
